@@ -536,3 +536,58 @@ for _p in _properties():
                 "binds (or a subclass, or an `obj.a = ...` anywhere). A setting that sibling classes define and one class lacks "
                 "(DisjunctionMax.intersect_merge) only fails on the path that reads it. Reviewed exceptions: generic.UNBOUND_OK; the matcher, "
                 "column and writer hierarchies are judged by C11-R9 / C08-R8 / C18-R6.")(_make_g5(_p["id"]))
+
+
+# ---------------------------------------------------------------------------------------------------------------------------
+#  G6  zero is a value: a numeric parameter is not replaced by a fallback through `or`
+#      (`self.prefixlength = prefixlength or 1` turns an explicit 0 into 1)
+
+def falsy_number_fallbacks(funcs):
+    n = 0
+    out = []
+    for f in funcs:
+        a = f.node.args
+        params = [x.arg for x in a.args]
+        defaults = dict(zip(params[len(params) - len(a.defaults):], a.defaults))
+        for k_, d_ in zip(a.kwonlyargs, a.kw_defaults):
+            if d_ is not None:
+                defaults[k_.arg] = d_
+        nums = set(p for p, d in defaults.items() if isinstance(d, ast.Constant) and isinstance(d.value, (int, float))
+                   and not isinstance(d.value, bool))
+        if not nums:
+            continue
+        n += 1
+        rebound = set(x.id for x in ast.walk(f.node) if isinstance(x, ast.Name) and isinstance(x.ctx, ast.Store))
+        for x in ast.walk(f.node):
+            if isinstance(x, ast.BoolOp) and isinstance(x.op, ast.Or) and isinstance(x.values[0], ast.Name) and x.values[0].id in nums \
+                    and x.values[0].id not in rebound and isinstance(x.values[1], ast.Constant) and isinstance(x.values[1].value, (int, float)) \
+                    and not isinstance(x.values[1].value, bool) and x.values[1].value != 0:
+                out.append((f, x))
+    return n, out
+
+
+def _make_g6(pid):
+    def g6(ctx):
+        prog = ctx.prog
+        # the detector must recognise its own example
+        probe = ast.parse("def f(self, a, dist=1, prefix=0):\n    self.dist = dist or 1\n    self.prefix = prefix or 1\n").body[0]
+
+        class _F(object):
+            node = probe
+        if len(falsy_number_fallbacks([_F])[1]) != 2:
+            raise AnalysisError("G6 detector does not match its own positive example")
+        funcs = anchor_funcs(prog, pid)
+        n, bad = falsy_number_fallbacks(funcs)
+        ctx.ob("%s anchor files" % pid, True, "%d functions with numeric parameter defaults examined for `param or <number>`" % n)
+        for f, x in bad:
+            ctx.ob(f, False, "an explicit 0 for `%s` is kept" % x.values[0].id,
+                   detail="`%s`: the parameter's default is a number, so 0 is a value a caller can mean; `or` replaces it by %s"
+                          % (norm.canon(x), norm.canon(x.values[1])), loc=ctx.nodeloc(f, x))
+    return g6
+
+
+for _p in _properties():
+    rule(_p["id"], "G6", "K6", "a numeric parameter is not replaced by a non-zero fallback through `or` (zero is a value)",
+         clause="For a parameter whose default is a number, `p or c` with a non-zero numeric c silently turns an explicit 0 into c "
+                "(prefixlength=0, maxdist=0, boost=0, slop=0 are all meaningful). Expected count on the tree: zero; the detector is "
+                "checked against a built-in example on every run.")(_make_g6(_p["id"]))
